@@ -19,31 +19,31 @@ def lowSFloat (s : Nat) : Nat := if s > 2^255 then secpOrder - s else s
 /-- range checks of `Signature.__init__` -/
 def sigInRange (r s : Nat) : Bool := 1 ≤ r && r < secpOrder && 1 ≤ s && s < secpOrder
 
+/-- content rules of a strict-DER positive INTEGER: not empty, not negative, no superfluous
+leading zero byte -/
+def derIntOk (b : Bytes) : Bool :=
+  !b.isEmpty && (b.headD 0).toNat < 0x80 &&
+  !(decide (b.length > 1) && (b.headD 0).toNat == 0 && ((b.drop 1).headD 0).toNat < 0x80)
+
 /-- strict DER signature decode (BIP66): r, s -/
 def derDecode (b : Bytes) : Option (Nat × Nat) :=
   match b with
   | 0x30 :: len :: 0x02 :: rlen :: rest =>
-    let rl := rlen.toNat
-    if rest.length < rl + 2 then none else
-    let rb := rest.take rl
-    match rest.drop rl with
-    | 0x02 :: slen :: rest2 =>
-      let sl := slen.toNat
-      if rest2.length ≠ sl then none
-      else if len.toNat ≠ b.length - 2 then none
-      else if rl = 0 ∨ sl = 0 then none
-      else if rb.headD 0 ≥ 0x80 ∨ rest2.headD 0 ≥ 0x80 then none
-      else if (rl > 1 ∧ rb.headD 0 = 0 ∧ (rb.drop 1).headD 0 < 0x80) then none
-      else if (sl > 1 ∧ rest2.headD 0 = 0 ∧ (rest2.drop 1).headD 0 < 0x80) then none
-      else some (beVal rb, beVal rest2)
-    | _ => none
+    if rest.length < rlen.toNat + 2 then none
+    else
+      match rest.drop rlen.toNat with
+      | 0x02 :: slen :: rest2 =>
+        if rest2.length == slen.toNat && len.toNat == b.length - 2 &&
+           derIntOk (rest.take rlen.toNat) && derIntOk rest2
+        then some (beVal (rest.take rlen.toNat), beVal rest2) else none
+      | _ => none
   | _ => none
 
 /-- minimal big-endian bytes of a positive integer with a leading 00 when the top bit is set (DER INTEGER) -/
 def derInt (n : Nat) : Bytes :=
   let b := (leBytesMin n).reverse
   let b := if b.isEmpty then [0] else b
-  if b.headD 0 ≥ 0x80 then 0 :: b else b
+  if (b.headD 0).toNat ≥ 0x80 then 0 :: b else b
 
 def derEncode (r s : Nat) : Bytes :=
   let rb := derInt r
